@@ -1,7 +1,7 @@
 """C15 rechunk plans are valid and respect the block-size budget.
 
 TLC enumerates (old grid, new grid, itemsize, threshold, limit, degree-limit);
-plan_rechunk / old_to_new / merge_to_number are called; Trace_Plan validates.
+plan_rechunk / old_to_new / merge_to_number / divide_to_width are called; Trace_Plan validates.
 """
 from __future__ import annotations
 
@@ -32,6 +32,14 @@ def _corrupt_merge(c):
     return None
 
 
+def _corrupt_divide(c):
+    # merge the first two pieces: crosses an old boundary or exceeds the width / minimal count
+    if len(c["out"]) >= 2:
+        c["out"] = [c["out"][0] + c["out"][1]] + c["out"][2:]
+        return c
+    return None
+
+
 def run(chk):
     rd = tlc.new_rundir("C15")
     try:
@@ -42,6 +50,8 @@ def run(chk):
             chk.cov["parts"][f"validate:plan_rechunk[{p}]"] = chk.cov["parts"].pop("validate:plan_rechunk")
         run_family(chk, rd, "merge_to_number", "merge_to_number", dict(NMax=7 if chk.tier == "quick" else 9), decode_plan,
                    corrupt=_corrupt_merge)
+        run_family(chk, rd, "divide_to_width", "divide_to_width", dict(NMax=7 if chk.tier == "quick" else 10), decode_plan,
+                   corrupt=_corrupt_divide)
         chk.cov["exhaustive"] = True
         chk.cov["rule"] = ("TLC enumerates every pair of chunkings of each preset shape (Planner.RechunkShapes) crossed with the "
                            "configuration tuples (itemsize, threshold, block-size limit, degree limit) of Planner.RechunkCfgs; "
